@@ -17,8 +17,12 @@ From Coercion.Select Require Import Rows Select SelectSpec.
 Record pobs := { o_same : bool; o_reason : reason; o_states : list (option state);
                  o_calls : nat; o_writes : nat }.
 
+(* k_vault: 0 = the Vault does not implement storage.Recovery; 1 = it does, and Recovery() was called
+            before any Search / Read / Update*; 2 = it does, but it was used before Recovery() had run
+            (or Recovery() was never called)
+   k_stale: ids its search index lists as Running although the plan rows are terminal, until Recovery() *)
 Record case := { k_t0 : Z; k_t1 : Z; k_maxage : Z; k_recovery : bool;
-                 k_store : list plan; k_obs : list pobs }.
+                 k_store : list plan; k_obs : list pobs; k_vault : nat; k_stale : list N }.
 
 Fixpoint list_eqb {A} (eqb : A -> A -> bool) (a b : list A) : bool :=
   match a, b with
@@ -63,6 +67,7 @@ Definition is_in (id : N) (l : list N) : bool := existsb (N.eqb id) l.
      5 something other than states / reason changed in a plan that is not resumed
      6 observation list and store have different lengths
      7 a plan the model resumes was closed with reason ExceedRecovery instead
+     8 the Vault implements storage.Recovery but was used before Recovery() had been called
      9 the decision differs between now = k_t0 and now = k_t1 (inconclusive: New took too long) *)
 (* the stored reason became ExceedRecovery: only start-up recovery's agedOut writes that reason *)
 Definition closed_by_recovery (p : plan) (o : pobs) : bool :=
@@ -103,10 +108,15 @@ Fixpoint first_code (c : case) (resumed : list N) (i : nat) (s s' : list plan) (
   end.
 
 Definition model_code (c : case) : nat * nat :=
-  let r0 := select (k_t0 c) (k_t0 c) (k_maxage c) (k_recovery c) (k_store c) in
-  let r1 := select (k_t1 c) (k_t0 c) (k_maxage c) (k_recovery c) (k_store c) in
+  let v := {| v_plans := k_store c; v_stale := k_stale c |} in
+  let impl := negb (Nat.eqb (k_vault c) 0) in
+  let r0 := open_workstream (k_t0 c) (k_t0 c) (k_maxage c) (k_recovery c) impl v in
+  let r1 := open_workstream (k_t1 c) (k_t0 c) (k_maxage c) (k_recovery c) impl v in
   if negb (list_eqb N.eqb (snd r0) (snd r1)) then (9, 0)
-  else first_code c (snd r0) 0 (k_store c) (fst r0) (k_obs c).
+  else match first_code c (snd r0) 0 (k_store c) (fst r0) (k_obs c) with
+       | (0, _) => if Nat.eqb (k_vault c) 2 then (8, 0) else (0, 0)
+       | r => r
+       end.
 
 (* ---- the property itself, evaluated on what the implementation did
         (Running / stale as SelectSpec defines them) ---- *)
@@ -139,7 +149,8 @@ Fixpoint mon_all (c : case) (s : list plan) (os : list pobs) : bool :=
   | _, _ => false
   end.
 
-Definition monitor (c : case) : bool := mon_all c (k_store c) (k_obs c).
+(* ... and a Vault that must be recovered before use was recovered before use *)
+Definition monitor (c : case) : bool := mon_all c (k_store c) (k_obs c) && negb (Nat.eqb (k_vault c) 2).
 
 (* [code; index of the first offending plan; 1 if the property monitor is true on the observation] *)
 Definition check_case (c : case) : list nat :=
